@@ -9,9 +9,9 @@ import SlipVerif.Theorems.C02
 namespace SlipVerif.Theorems.GenC02
 open SlipVerif.Reader SlipVerif.Gen
 
-/-- step totality: each of the 15 mode tables has 256 entries, every entry is an action the model
+/-- step totality: each of the 16 mode tables has 256 entries, every entry is an action the model
     implements *in that mode* (or the raise branch), digit actions sit on digit bytes; `escByteMap`
-    and `hexByteValues` have 256 entries (18 × 256 table cells decided by the kernel) -/
+    and `hexByteValues` have 256 entries (19 × 256 table cells decided by the kernel) -/
 theorem step_total : tablesOK genTables = true := by decide +kernel
 
 /-- the action codes of the model are distinct -/
@@ -22,6 +22,48 @@ theorem action_codes_distinct : (genActs.map (·.1)).Nodup := by decide +kernel
 theorem switch_cases_match :
     (ReaderTables.readCases.all (fun c => (genActs.lookup c).isSome) &&
      genActs.all (fun p => ReaderTables.readCases.contains p.1)) = true := by decide +kernel
+
+/-- code.go declares exactly the mode tables the model has a mode for (a new `…Mode` table is a new
+    lexer mode the model knows nothing about) -/
+theorem mode_tables_match :
+    ReaderTables.modeNames = ["valueMode", "commentMode", "tokenMode", "stringMode", "symbolMode", "escMode",
+      "runeMode", "sharpMode", "charMode", "charStartMode", "intMode", "sharpNumMode", "mustArrayMode",
+      "blockCommentMode", "blockEndMode", "bitVectorMode"] := by decide +kernel
+
+/-- the mode each case of the byte switch assigns to `r.mode` is the one the model's action moves to
+    (`plainNext`, `kindOf`, the token / string / escape steps): e.g. `charSlash → charStartMode`,
+    `charFirst → charMode`, `escOne → nextMode` -/
+theorem mode_assignments_match :
+    ReaderTables.modeAssigns =
+      [(ReaderTables.skipNewline, []), (ReaderTables.skipByte, []), (ReaderTables.commentByte, ["commentMode"]),
+       (ReaderTables.commentDone, ["valueMode"]), (ReaderTables.openParen, []), (ReaderTables.closeParen, []),
+       (ReaderTables.tokenStart, ["tokenMode"]), (ReaderTables.tokenDone, ["valueMode"]),
+       (ReaderTables.doubleQuote, ["stringMode"]), (ReaderTables.pipeByte, ["symbolMode"]),
+       (ReaderTables.stringByte, []), (ReaderTables.stringDone, ["valueMode"]), (ReaderTables.pipeDone, ["valueMode"]),
+       (ReaderTables.escByte, ["escMode"]), (ReaderTables.escOne, ["nextMode"]), (ReaderTables.escUnicode4, ["runeMode"]),
+       (ReaderTables.escUnicode8, ["runeMode"]), (ReaderTables.runeDigit, []), (ReaderTables.runeHexA, []),
+       (ReaderTables.runeHexa, []), (ReaderTables.sharpByte, ["sharpMode"]), (ReaderTables.charSlash, ["charStartMode"]),
+       (ReaderTables.charFirst, ["charMode"]), (ReaderTables.charDone, ["valueMode"]), (ReaderTables.vectorByte, ["valueMode"]),
+       (ReaderTables.binaryByte, ["intMode"]), (ReaderTables.octByte, ["intMode"]), (ReaderTables.hexByte, ["intMode"]),
+       (ReaderTables.intDone, ["valueMode"]), (ReaderTables.sharpIntByte, ["sharpNumMode"]), (ReaderTables.sharpNumByte, []),
+       (ReaderTables.radixByte, ["intMode"]), (ReaderTables.sharpComplex, ["mustArrayMode"]),
+       (ReaderTables.arrayByte, ["mustArrayMode"]), (ReaderTables.swallowOpen, ["valueMode"]), (ReaderTables.singleQuote, []),
+       (ReaderTables.sharpQuote, ["valueMode"]), (ReaderTables.backquoteByte, []), (ReaderTables.commaByte, []),
+       (ReaderTables.commaAt, ["tokenMode"]), (ReaderTables.blockStart, ["blockCommentMode"]),
+       (ReaderTables.blockEnd0, ["blockEndMode"]), (ReaderTables.bitVectorByte, ["bitVectorMode"]),
+       (ReaderTables.bitVectorDone, ["valueMode"])] := by decide +kernel
+
+/-- what is carried over a block boundary: the unfinished token in the four token modes (`endBlock`
+    `.tok _`), the pending string bytes in the two string modes (`.str _`), nothing elsewhere -/
+theorem carry_switch_match :
+    ReaderTables.carrySwitch = [["tokenMode", "charMode", "intMode", "bitVectorMode"], ["stringMode", "symbolMode"]] := by
+  decide +kernel
+
+/-- the end-of-input switch names the modes `finishCore` treats specially -/
+theorem eof_switch_match :
+    ReaderTables.eofSwitch = [["tokenMode"], ["stringMode"], ["runeMode"], ["escMode"], ["symbolMode"],
+      ["charStartMode", "charMode"], ["intMode"], ["bitVectorMode"], ["sharpMode", "sharpNumMode"],
+      ["blockCommentMode", "blockEndMode"]] := by decide +kernel
 
 /-- every byte of every mode is handled by a modelled action valid in that mode -/
 theorem every_entry_handled (m : Mode) (b : Byte) :
@@ -73,6 +115,8 @@ example : onePos [97, 98, 32, 99] = some 2 := by decide +kernel            -- ab
 example : onePos [40, 97, 41, 32, 98] = some 3 := by decide +kernel        -- (a) b
 example : onePos [34, 115, 34, 32, 120] = some 3 := by decide +kernel      -- "s" x
 example : onePos [40, 97] = none := by decide +kernel                      -- (a
+example : onePos [35, 92, 40, 32] = some 3 := by decide +kernel            -- #\( : any byte right after #\
+example : isErr (readAll genTables {} [35, 92]) = true := by decide +kernel -- #\ at the end of the text
 end samples
 
 end SlipVerif.Theorems.GenC02
